@@ -186,6 +186,8 @@ func (o *Options) clone() *Options {
 		SkipConsistencyCheck:       o.SkipConsistencyCheck,
 		SkipExtends:                o.SkipExtends,
 		SkipInclude:                o.SkipInclude,
+		SkipResolveEnvironment:     o.SkipResolveEnvironment,
+		SkipDefaultValues:          o.SkipDefaultValues,
 		Interpolate:                o.Interpolate,
 		discardEnvFiles:            o.discardEnvFiles,
 		projectName:                o.projectName,
